@@ -156,21 +156,13 @@ theorem I6_order (cs : Case) (hwf : cs.cfg.wf = true) :
   have := execBlock_O cs.cfg (depsBelow_of_wf hwf) cs.prog _ (inv_init cs.ka cs.roe) h0
   exact this.before
 
-/-- **C14, the part of `Spec.C14` that is proved** — I1 ∧ I2 ∧ I3 ∧ I4 ∧ I5 of the specification hold
-    on the model's log for every well-formed case (program, dependency graph, flags, fault oracle).
-
-    The full statement is
+/-- I1 ∧ I2 ∧ I3 ∧ I4 ∧ I5 of `Spec.C14` on the model's log for every well-formed case (program,
+    dependency graph, flags, fault oracle).  The remaining conjunct — the observable form of I6 — and
+    with it the full statement
 
         theorem spec (cs : Case) (hwf : cs.wf = true) : Spec.C14 cs (run cs) = true
 
-    and what is missing for it is only the *observable* form of I6 (`specI6`: during the outermost
-    `__exit__`, as long as no teardown has failed and for dependency graphs with `exclUnique`, a
-    machine goes down only when no machine built from its class is up).  I6 is proved in its state
-    form (`I6_order`: the teardown order respects the dependency graph); deriving the statement
-    about the order of the `down` events inside the exit window additionally needs (a) that an
-    exception in flight inside the window implies a logged fault and (b) a link between the flags
-    of the frames held by a generator and `cfg.deps` — neither is proved.  The correspondence
-    check evaluates the full `Spec.C14`, including `specI6`, on every implementation run. -/
+    are proved in `Props/C14Full.lean` (`C14.I6`, `C14.I6_event`, `C14.spec`), on top of this theorem. -/
 theorem spec_partial (cs : Case) (hwf : cs.wf = true) :
     (specI1 (run cs).reverse && specI2 (run cs).reverse && specI3 (run cs).reverse &&
       specI4 cs (run cs).reverse && specI5 (run cs).reverse) = true := by
